@@ -39,7 +39,7 @@ def run_part(c):
     if c.tier == "quick":
         args = ["-n", "1", "-truncs", "16", "-flips", "6", "-marks", "6"]
     else:
-        args = ["-n", "8", "-truncs", "64", "-flips", "40", "-marks", "20"]
+        args = ["-n", "8", "-truncs", "64", "-flips", "40", "-marks", "20", "-group", "600"]
     rc, out = c.run([b, "-out", c.build, "-seed", str(c.seed), "-cap", str(CAP), "-witness", wpath,
                      "-table", os.path.join(c.build, "wiregen.json")] + args, timeout=3000)
     if rc != 0:
